@@ -78,3 +78,83 @@ def deep_recursion_family():
                     src = "functie f(%s) { %sals n == 0 { antwoord %s } %s } f(%s)" % (", ".join(params), locs, base, expr, ", ".join(first))
                     out.append((src, m * depth + (2 * depth if p >= 2 else 5)))
     return out
+
+
+LAYOUT_TEMPLATES = [
+    # (program text, expected head) - every kind of jump the compiler patches, and function entry points
+    ("stel i = 0; stel e = 0; stel o = 0; zolang i < 6 { i += 1; als i % 2 == 0 { e += 1 } anders { o += 1 } } [i, e, o]", None),
+    ("stel i = 0; stel t = 0; zolang i < 9 { i += 1; als i == 3 { volgende } als i == 7 { stop } t += i } [i, t]", None),
+    ("stel i = 0; stel t = 0; zolang i < 4 { i += 1; stel j = 0; zolang j < 3 { j += 1; als j == 2 { volgende } t += 1 } } t", None),
+    ("functie f(n) { als n < 2 { antwoord n } f(n - 1) + f(n - 2) } f(9)", None),
+    ("functie g(c) { als c == 0 { 10 } anders als c == 1 { antwoord 20 } anders { 30 } } [g(0), g(1), g(2)]", None),
+    ("stel v = als nee { 1 } anders als ja { zolang nee { } } anders { 3 }; stel w = [v, 2]; lengte(w)", None),
+    ("stel i = 0; zolang i < 3 { i += 1; functie h(x) { als x { antwoord 1 } 2 } h(i == 2) } i", None),
+]
+
+
+def pad(k):
+    """k bytes of top-level code that does nothing: `ja;` is True Pop (2 bytes), `!ja;` is True Not Pop (3 bytes)"""
+    if k <= 0:
+        return ""
+    if k == 1:
+        return None
+    if k % 2 == 0:
+        return "ja; " * (k // 2)
+    return "!ja; " + "ja; " * ((k - 3) // 2)
+
+
+def layout_sweep(offsets):
+    """every template shifted to every requested code offset: where code lands must not matter"""
+    out = []
+    for t, (src, _) in enumerate(LAYOUT_TEMPLATES):
+        for k in offsets:
+            p = pad(k)
+            if p is not None:
+                out.append((t, k, p + src))
+    return out
+
+
+def evaluation_order_family():
+    """operands are evaluated left to right, arguments left to right then the callee, whatever the operator and
+    whatever kind of variable stands on either side: the right operand's call changes what the left one named"""
+    ops = ["+", "-", "*", "/", "%", "<", "<=", ">", ">=", "==", "!="]
+    out = []
+    for op in ops:
+        out.append("stel g = 7; functie f() { g = g + 3; g } [g %s f(), g]" % op)
+        out.append("stel g = 7; functie f() { g = g + 3; g } [f() %s g, g]" % op)
+        out.append("stel g = 7; functie f() { g = g + 3; g } functie h(x) { x %s f() } [h(g), g]" % op)
+        out.append("stel g = 7; functie f() { g = g + 3; 2 } stel a = [g, g %s f(), g]; a" % op)
+    for op in ("&&", "||"):
+        out.append("stel g = ja; functie f() { g = !g; g } [g %s f(), g]" % op)
+        out.append("stel g = ja; functie f() { g = !g; g } [f() %s g, g]" % op)
+    out += [
+        "stel g = 1; functie f() { g = g * 10; g } functie k(a, b, c) { [a, b, c] } k(g, f(), g)",
+        "stel g = 1; functie f() { g = g * 10; g } [g, f(), g, f(), g]",
+        "stel g = 1; functie f() { g = g + 1; g } stel a = [0, 0, 0, 0]; a[g] = f(); [a, g]",
+        "stel g = 1; functie f() { g = g + 1; g } stel a = [5, 6, 7, 8]; a[f()] + g",
+        "stel fs = [functie(x) { x + 1 }, functie(x) { x * 100 }]; stel i = 0; functie nxt() { i = i + 1; i } stel f = fs[i]; f(nxt())",
+        "functie p(x) { print(\"p {}\", x); x } p(1) + p(2) * p(3) - p(4)", "functie p(x) { print(\"p {}\", x); x } p(p(1) + p(2))",
+    ]
+    return out
+
+
+def big_program_family():
+    """programs whose code crosses 64 KiB (constants are 3 bytes each): either a syntax error ("te groot") or the
+    exact result - never a wild jump.  (source, expected value head)"""
+    out = []
+    for n in (21830, 21840, 21845, 21846, 21850, 22000):
+        lit = "[" + ", ".join("7" for _ in range(n)) + "]"
+        out.append(("functie f(x) { x + 1 } stel a = %s; print(\"{}\", f(41)); lengte(a)" % lit, "OK i%d" % n))
+        out.append(("functie f(x) { x + 1 } stel a = %s; stel r = f(41); stel i = 0; zolang i < 3 { i += 1 } r + i" % lit, "OK i45"))
+    return out
+
+
+def alloc_stress_family():
+    """many allocations between two function returns, then fresh heap values held only by a half-built literal,
+    an argument list or a pending operand"""
+    out = []
+    for n in (10, 250, 260, 300, 520, 600):
+        out.append("stel i = 0; stel keep = []; zolang i < %d { i += 1; stel t = [i + 0.5] } stel l = [2.5 * 2.0, \"x\", [1.5]]; [l[0], l[1], l[2]]" % n)
+        out.append("stel i = 0; zolang i < %d { i += 1; stel t = \"s\" } functie k(a, b) { [a, b] } k([0.25 + 0.5], [\"y\", 1.5 * 3.0])" % n)
+        out.append("stel i = 0; stel acc = 0.0; zolang i < %d { i += 1; acc = acc + 0.5 } stel l = [[acc], [acc + 1.0]]; stel m = [l, [l[0]]]; m" % n)
+    return out
